@@ -2,7 +2,9 @@
    Statements are about the two executable models of Model/Rows.v: the exact dyadic model (cgr_exact) and the
    binary64 model (cgr_b64, Flocq), which share the generic walk. *)
 From Coq Require Import NArith ZArith List.
-From KT Require Import Gen.Generated Gen.Alphabet Gen.GeneratedFacts Model.Rows Proof.CgrProof.
+From Coq Require Import Reals.
+From Flocq Require Import Core IEEE754.Binary IEEE754.Bits.
+From KT Require Import Gen.Generated Gen.Alphabet Gen.GeneratedFacts Model.Rows Proof.CgrProof Proof.CgrFloat.
 Import ListNotations.
 
 (* the corner table found in the code is the one the property names: A=(0,0), C=(0,S), G=(S,S), T,U=(S,0),
@@ -62,6 +64,15 @@ Theorem C11_last_bases_fix_subsquare :
    snd (fst q) = (e + length b)%nat /\ snd (snd q) = (e' + length b)%nat)%Z.
 Proof. intros S corner a b la lb cs HS. exact (cgr_exact_subsquare S HS corner a b la lb cs). Qed.
 
+(* the binary64 model (exactly the arithmetic the Rust performs): for every integer square size below 2^52 and
+   every sequence length - well beyond the exactly representable prefix - every coordinate stays finite and
+   inside the closed square.  (Flocq's Bplus_correct / Bdiv_correct: depends on the four real-number axioms.) *)
+Theorem C11_binary64_walk_stays_in_square :
+  forall corner Sz seq l, (0 <= Sz < 2 ^ 52)%Z -> cgr_b64 corner Sz seq = Some l ->
+  Forall (fun p : fpt => (is_finite 53 1024 (fst p) = true /\ (0 <= B2R 53 1024 (fst p) <= IZR Sz)%R) /\
+                         (is_finite 53 1024 (snd p) = true /\ (0 <= B2R 53 1024 (snd p) <= IZR Sz)%R)) l.
+Proof. exact cgr_b64_in_square. Qed.
+
 Example C11_example : m_cgr 1 [65; 67; 71; 84]%N = s_cgr 1 [65; 67; 71; 84]%N /\ m_cgr 1 [65; 78]%N = err.
 Proof. vm_compute. split; reflexivity. Qed.
 
@@ -75,3 +86,4 @@ Print Assumptions C11_prefix_determined.
 Print Assumptions C11_prefix_determined_b64.
 Print Assumptions C11_inside_square.
 Print Assumptions C11_last_bases_fix_subsquare.
+Print Assumptions C11_binary64_walk_stays_in_square.
